@@ -482,6 +482,11 @@ PATCHES = {
 }
 
 
+# Which repairs of the model's `Fix` flags the tree in /repo contains (moveLabel, outputSearch):
+# both since the fix: commits 1c99d10 and cf1604e (findings F19, F20).
+TREE_FIX = "11"
+
+
 def patched_from_pyzx(names):
     """`Diagram.from_pyzx` with the named proposed patches applied to the CURRENT source text
     (None if a patch no longer applies, i.e. the tree has changed there)."""
@@ -608,7 +613,7 @@ def run(tier, seed, replay=None):
             toks = ["%d %d %s" % (dom, cod, tok_desc((dom, boxes)).split(" ", 1)[1])
                     for dom, cod, boxes in full]
             ans_export = drv.ask_many(["zx_export " + t for t in toks])
-            ans_rt = drv.ask_many(["zx_roundtrip 00 " + t for t in toks])
+            ans_rt = drv.ask_many(["zx_roundtrip " + TREE_FIX + " " + t for t in toks])
             ans_rt_fixed = drv.ask_many(["zx_roundtrip 11 " + t for t in toks])
             for desc, tok, m_exp, m_rt, m_fix in zip(descs, toks, ans_export, ans_rt, ans_rt_fixed):
                 dom, boxes = desc
@@ -679,7 +684,7 @@ def run(tier, seed, replay=None):
                 if gg is not None:
                     graphs.append(gg)
             gtoks = [tok_graph(g, order) for g, order in graphs]
-            ans_imp = drv.ask_many(["zx_import 00 " + t for t in gtoks])
+            ans_imp = drv.ask_many(["zx_import " + TREE_FIX + " " + t for t in gtoks])
             ans_imp_fixed = drv.ask_many(["zx_import 11 " + t for t in gtoks])
             for (g, order), tok, m_imp, m_fix in zip(graphs, gtoks, ans_imp, ans_imp_fixed):
                 case = dict(graph=tok)
@@ -739,7 +744,7 @@ def run(tier, seed, replay=None):
                         continue
                 tok = tok_graph(g, order)
                 d2, exc = attempt(zx.Diagram.from_pyzx, g)
-                lines.append("zx_import 00 " + tok)
+                lines.append("zx_import " + TREE_FIX + " " + tok)
                 reals.append("err " + err_class(exc) if exc else "ok " + ser_zx_diagram(d2))
                 cases.append((mode, tok, exc, d2))
             for (mode, tok, exc, d2), real, model in zip(cases, reals, drv.ask_many(lines)):
